@@ -32,7 +32,7 @@ func configs(r *eng.Run) []string {
 				}
 			}
 		}
-		add(cfg{layout: "dyn", width: 8, maxLinks: 2, thr: "tiny", est: "block", stat: true, v1: true})
+		add(cfg{layout: "dyn", width: 8, maxLinks: 2, thr: "tiny", est: "block", stat: 1, v1: true})
 		return out
 	}
 	// quick: width 8 (deepest collisions) with every distinguishable (maxLinks, threshold, mode) combination ...
